@@ -32,10 +32,7 @@ func ruleRowIndicators(c *Ctx) {
 		}
 		c.Fn(c.P.FuncName(fn))
 		rets := returnsOf(fn)
-		if len(rets) != 1 {
-			c.Undecided(R, side.fn, fn.Pos(), "expected one return")
-			continue
-		}
+		multiRet := len(rets) != 1
 		// the roles (row, rows, cols, level) are those of the call in EncodeWithColor: the helper's
 		// parameters - scalars or fields of a struct - resolve through that calling context
 		n := pdfIndicatorContext(c, fn)
@@ -46,6 +43,33 @@ func ruleRowIndicators(c *Ctx) {
 			}
 			n = NewNormer(c.P)
 			n.BindParams(fn, "row", "rows", "cols", "level")
+		}
+		if multiRet {
+			// one return per cluster (`switch row % 3 { case 0: return ... }`): the return reached at k
+			eachInstr(fn, func(b *ssa.BasicBlock, ins ssa.Instruction) {
+				if v, ok := ins.(ssa.Value); ok && isIntType(v.Type()) {
+					if pEqual(n.Norm(v), MustRef("row % 3")) {
+						n.Bind[v] = "k"
+					}
+				}
+			})
+			for k := int64(0); k < 3; k++ {
+				key := fmt.Sprintf("%s/cluster%d", side.fn, k)
+				ret, err := returnAt(n, fn, map[string]int64{"k": k}, nil)
+				if err != nil {
+					c.Undecided(R, key, fn.Pos(), err.Error())
+					continue
+				}
+				n.Opaque = false
+				got := n.Norm(ret.Results[0])
+				want := pAdd(MustRef("30*(row/3)"), MustRef(quant[(int(k)+side.rot)%3]), 1)
+				if n.Opaque {
+					c.Undecided(R, key, ret.Pos(), "formula outside the fragment: "+got.String())
+					continue
+				}
+				c.Check(R, key, ret.Pos(), pEqual(got, want), want.String(), got.String())
+			}
+			continue
 		}
 		// find the phi feeding the result and the scrutinee (row % 3)
 		var phi *ssa.Phi
